@@ -1,6 +1,6 @@
 (* C20 correspondence evaluator: runs the model variants (4 x 2 readings of a null index cell) on a harness case and compares with what the real code
    returned (NewKeyCondition error, Scan ranges, MayBeInRange per probe, CheckInRange marks per rectangle). *)
-From Coq Require Import ZArith List Bool Arith.
+From Coq Require Import ZArith NArith List Bool Arith.
 From OG Require Import C20.Model C20.NullOrder C20.BloomModel.
 Import ListNotations.
 
@@ -113,3 +113,19 @@ Fixpoint bloom_results_from (k : nat) (cs : list (list (sk katom * bool))) : lis
       else (k, pred) :: bloom_results_from (S k) r
   end.
 Definition bloom_results := bloom_results_from 0.
+
+(* ---------- tokenizer tie ----------
+   the split table as the list of its split bytes; per value: (bytes, the byte-level tokens the harness computed and
+   checked against the real SimpleTokenizer's hash sequence); per pair: (phrase, value, the real SimpleTokenFinder's
+   answer). Returns the indices where TokModel.tokens / TokModel.finder differ. *)
+From OG Require C20.TokModel.
+Fixpoint mism_from {A} (bad : A -> bool) (k : nat) (l : list A) : list nat :=
+  match l with
+  | [] => []
+  | x :: r => if bad x then k :: mism_from bad (S k) r else mism_from bad (S k) r
+  end.
+Definition tok_results (splitbytes : list N) (vals : list (list N * list (list N)))
+                       (pairs : list (list N * list N * bool)) : list nat * list nat :=
+  let split := fun b => existsb (N.eqb b) splitbytes in
+  (mism_from (fun x => negb (list_eqb (list_eqb N.eqb) (TokModel.tokens split (fst x)) (snd x))) 0 vals,
+   mism_from (fun x => negb (Bool.eqb (TokModel.finder split (fst (fst x)) (snd (fst x))) (snd x))) 0 pairs).
